@@ -675,7 +675,7 @@ func Generate(prop, tier string, seed uint64) []GenCase {
 	case "C09":
 		out = genCancel("S-cancel", seed, 40*scale)
 	case "C15":
-		out = genAlias("S-alias", seed, 0)
+		out = genAlias("S-alias", seed, 100*scale)
 	case "C19":
 		out = genDet("S-det", seed, 40*scale, 8)
 	case "C20":
